@@ -23,7 +23,7 @@ m={"version":1,
  "engines":[{"name":"dsim","path":"/verif/dsim","serves_properties":[c["property_id"] for c in checks],
    "kind_free_text":"deterministic simulator: testing/synctest bubble + yield-hook controller + simulated connections + shadow-durability disk; seeded plans, shrinking, exact replay"}],
  "checks":checks,
- "notes":"Known genuine defects are listed in /verif/KNOWN_FINDINGS.json (open = reported as KNOWN-FINDING lines; fixed = repaired by a fix: commit in /repo and guarded by a witness replay). add_only is false because of exactly two rewritten lines: in sugardb/sugardb.go the store lock's field type and its constructor changed from sync.RWMutex to storeRWMutex, which is a type ALIAS of sync.RWMutex without the verif tag (sugardb/storelock.go) and a yielding wrapper with it; everything else the hook commits do is added lines (including the '//go:build !verif' line on internal/raft/raft.go and internal/memberlist/memberlist.go, whose verif-only twins register the real FSM and gossip delegate with the simulator). See DESIGN.md §4.",
+ "notes":"Known genuine defects are listed in /verif/KNOWN_FINDINGS.json (open = reported as KNOWN-FINDING lines; fixed = repaired by a fix: commit in /repo and guarded by a witness replay). add_only is false because of a dozen rewritten lines, all of the same kind: the declarations and zero-value constructors of six locks (store lock, write-commit mutex, connection table, ACL user list, pub/sub channel list and subscriber map) name verifhook.RWMutex / verifhook.Mutex (or storeRWMutex) instead of sync.RWMutex / sync.Mutex; without the verif tag these are type ALIASES of the sync types (verifhook/lock_off.go, sugardb/storelock.go), with it they are wrappers whose acquisitions are scheduling points and which tell the harness who holds the lock; everything else the hook commits do is added lines (including the '//go:build !verif' line on internal/raft/raft.go and internal/memberlist/memberlist.go, whose verif-only twins register the real FSM and gossip delegate with the simulator). See DESIGN.md §4.",
  "not_applicable":na}
 json.dump(m,open(V+"/MANIFEST.json","w"),indent=1)
 print("claimed:",[c["property_id"] for c in checks])
